@@ -15,7 +15,7 @@ FIXED = ["a", "B", "ab", "A"]
 OPS = ["add_new", "add_existing", "add_taxa", "append", "new_taxon", "new_taxa", "require_taxon",
        "remove_taxon", "remove_nonmember", "remove_taxon_label", "discard_taxon_label",
        "sort", "reverse", "clear", "relabel", "delitem", "copy", "deepcopy", "constructor",
-       "iadd_like_history"]
+       "iadd_like_history", "remove_then_readd"]
 
 SPEC = ([("i%d" % k, int) for k in range(K)] + [("lab%d" % k, int) for k in range(K)] +
         [("c%d" % k, bool) for k in range(K)] + [("s%d" % k, bool) for k in range(K + 2)] +
@@ -239,6 +239,31 @@ def c10_step(kw):
             survivors.remove(j)
             a, b = ns.new_taxon("n1"), ns.new_taxon("n2")
             new = [a, b]
+        elif op == "remove_then_readd":
+            # history on one Taxon object: its bit is looked up (and may be cached), it is removed by one of the
+            # removal routes and later added back: it is a new member then, with a bit of its own again
+            assume(k > 0)
+            j = choose(kw["t1"], k)
+            t = members[j]
+            if kw["f_x"]:
+                ns.taxa_bitmask(taxa=[t])
+            how = choose(kw["q"], 3)
+            if how == 0:
+                ns.remove_taxon(t)
+            elif how == 1:
+                del ns[j]
+            else:
+                t.label = "only-this-one"
+                ns.discard_taxon_label("only-this-one", is_case_sensitive=True)
+            survivors.remove(j)
+            if kw["first"]:
+                ns.add_taxon(t)
+            else:
+                ns.add_taxa([t])
+            new = [t]
+            back = ns.bitmask_taxa_list(ns.taxa_bitmask(taxa=[t]))
+            if len(back) != 1 or back[0] is not t:
+                return "mask-round-trip-of-readded-member-wrong"
         else:
             raise Fail("harness:op", op)
     except dperror.ImmutableTaxonNamespaceError:
